@@ -337,7 +337,8 @@ class HistoryGen:
                 self.emit('APPLY %d L %s X %d %d V %s' % (i, ints(loc), dim, stp, ints(vals)), sh.op_apply(i, loc, dim, stp, vals))
             elif k in ('APPLYSLICE', 'COPYFROM'):
                 if k == 'COPYFROM':
-                    j = self.pick(lambda b: b.shape == a.shape)
+                    # CopyFrom(other) = ApplySlice at the origin: the source may be smaller than the destination
+                    j = self.pick(lambda b: len(b.shape) == len(a.shape) and all(x <= y for x, y in zip(b.shape, a.shape)))
                     if j is None:
                         continue
                     self.emit('COPYFROM %d %d' % (i, j), sh.op_copyfrom(i, j))
